@@ -63,6 +63,43 @@ func isByteSlice(t types.Type) bool {
 	return ok && b.Kind() == types.Uint8
 }
 
+// encodeNoWriteThroughRule: alias analysis over the encode scope with message memory (every pointer-like field
+// load) as source: nothing writes elements of, or appends onto, a slice that belongs to the message. Encoding is
+// then a function of the message's value; an encoder that grows a message-owned slice in place changes what a
+// second message sharing that backing array encodes to.
+func (c *Ctx) encodeNoWriteThroughRule(r *Report, rule string, escope []*ssa.Function, allowed map[string]bool) *AliasResult {
+	er := c.Alias(&AliasCfg{
+		Scope: escope,
+		Source: func(fn *ssa.Function, v ssa.Value) bool {
+			u, ok := v.(*ssa.UnOp)
+			if !ok || u.Op != token.MUL || !pointerLike(u.Type()) {
+				return false
+			}
+			_, isField := u.X.(*ssa.FieldAddr)
+			return isField
+		},
+	})
+	r.Rule(rule, "encode scope never writes elements of, or appends onto, a slice loaded from a message field (spare-capacity writes included)", 1)
+	var wt []AliasSite
+	for _, w := range er.WritesThrough {
+		if st, ok := w.Ins.(*ssa.Store); ok && allowed[addrEffect(st.Addr)] {
+			continue // header bookkeeping through m.IKEHeader
+		}
+		wt = append(wt, w)
+	}
+	er.WritesThrough = wt
+	if len(er.WritesThrough) == 0 {
+		r.ok(rule, fmt.Sprintf("%d functions", len(escope)), "-", "every element write / append base is a freshly made buffer", true)
+	}
+	for _, w := range er.WritesThrough {
+		r.bad(rule, fmt.Sprintf("%s: %s", c.FuncName(w.Fn), c.SrcExpr(w.Ins)), c.InstrPos(w.Ins), w.What)
+	}
+	for _, w := range er.ExtArgs {
+		r.undecided(rule, fmt.Sprintf("%s: %s", c.FuncName(w.Fn), c.SrcExpr(w.Ins)), c.InstrPos(w.Ins), w.What)
+	}
+	return er
+}
+
 // RunC20 decides property C20.
 func RunC20(c *Ctx, r *Report) {
 	prefix := "C20."
@@ -200,36 +237,7 @@ func RunC20(c *Ctx, r *Report) {
 		}
 	}
 	c.bookkeepingRecomputedRule(r, prefix, escope, allowed)
-	// alias analysis with message memory as source
-	er := c.Alias(&AliasCfg{
-		Scope: escope,
-		Source: func(fn *ssa.Function, v ssa.Value) bool {
-			u, ok := v.(*ssa.UnOp)
-			if !ok || u.Op != token.MUL || !pointerLike(u.Type()) {
-				return false
-			}
-			_, isField := u.X.(*ssa.FieldAddr)
-			return isField
-		},
-	})
-	r.Rule(prefix+"encode.no-write-through", "encode scope never writes elements of, or appends onto, a slice loaded from a message field (spare-capacity writes included)", 1)
-	var wt []AliasSite
-	for _, w := range er.WritesThrough {
-		if st, ok := w.Ins.(*ssa.Store); ok && allowed[addrEffect(st.Addr)] {
-			continue // header bookkeeping through m.IKEHeader
-		}
-		wt = append(wt, w)
-	}
-	er.WritesThrough = wt
-	if len(er.WritesThrough) == 0 {
-		r.ok(prefix+"encode.no-write-through", fmt.Sprintf("%d functions", len(escope)), "-", "every element write / append base is a freshly made buffer", true)
-	}
-	for _, w := range er.WritesThrough {
-		r.bad(prefix+"encode.no-write-through", fmt.Sprintf("%s: %s", c.FuncName(w.Fn), c.SrcExpr(w.Ins)), c.InstrPos(w.Ins), w.What)
-	}
-	for _, w := range er.ExtArgs {
-		r.undecided(prefix+"encode.no-write-through", fmt.Sprintf("%s: %s", c.FuncName(w.Fn), c.SrcExpr(w.Ins)), c.InstrPos(w.Ins), w.What)
-	}
+	er := c.encodeNoWriteThroughRule(r, prefix+"encode.no-write-through", escope, allowed)
 	r.Rule(prefix+"encode.fresh-result", "the buffers returned by IKEMessage.Encode, IKEPayloadContainer.Encode and EAP.Marshal do not alias any field of the message", 3)
 	for _, spec := range [][3]string{{"message", "IKEMessage", "Encode"}, {"message", "IKEPayloadContainer", "Encode"}, {"eap", "EAP", "Marshal"}} {
 		fn := c.Method(spec[0], spec[1], spec[2])
@@ -387,6 +395,7 @@ func (c *Ctx) mapRangeOrderInsensitive(fn *ssa.Function, rg *ssa.Range) (string,
 	// effects inside the loop body
 	var appends []*ssa.Call
 	var allocAppends []*ssa.Alloc
+	nIndexed := 0
 	otherEffect := ""
 	returns := 0
 	for _, b := range sortedBlocks(loop.body) {
@@ -409,6 +418,12 @@ func (c *Ctx) mapRangeOrderInsensitive(fn *ssa.Function, rg *ssa.Range) (string,
 				}
 				if root := allocRoot(x.Addr); root != nil && loop.body[root.Block()] && root != x.Addr {
 					continue // element of a temporary allocated inside the body (varargs array)
+				}
+				// keys[next] = key; next++ into a captured slice variable: the same collection as an append
+				if a := indexedCollect(loop, x); a != nil {
+					allocAppends = append(allocAppends, a)
+					nIndexed++
+					continue
 				}
 				otherEffect = "store at " + c.InstrPos(ins)
 			case *ssa.MapUpdate:
@@ -481,7 +496,7 @@ func (c *Ctx) mapRangeOrderInsensitive(fn *ssa.Function, rg *ssa.Range) (string,
 				}
 			}
 		}
-		if len(appends) == len(allocAppends) {
+		if len(appends) == len(allocAppends)-nIndexed {
 			return "collect-then-sort idiom: the body only appends keys to a slice that is sorted before it is used", true
 		}
 	}
@@ -549,6 +564,57 @@ func (c *Ctx) mapRangeOrderInsensitive(fn *ssa.Function, rg *ssa.Range) (string,
 		// the comparison closure must be a strict total order on distinct keys: we require it to compare the elements themselves
 	}
 	return "collect-then-sort idiom: the body only appends keys to a slice that is sorted before it is used", true
+}
+
+// indexedCollect: st is `s[n] = v` executed in every iteration of loop, with s the current value of a captured
+// slice variable (heap Alloc, not assigned inside the loop) and n a counter that starts at 0 and is incremented
+// by one in every iteration - the slice receives the iterated values at 0, 1, 2, ... in iteration order, as
+// append would do it. Returns the variable.
+func indexedCollect(loop *loopInfo, st *ssa.Store) *ssa.Alloc {
+	ia, ok := st.Addr.(*ssa.IndexAddr)
+	if !ok {
+		return nil
+	}
+	ld, ok := ia.X.(*ssa.UnOp)
+	if !ok || ld.Op != token.MUL {
+		return nil
+	}
+	a, ok := ld.X.(*ssa.Alloc)
+	if !ok || !a.Heap {
+		return nil
+	}
+	if _, isSlice := a.Type().(*types.Pointer).Elem().Underlying().(*types.Slice); !isSlice {
+		return nil
+	}
+	for _, ref := range *a.Referrers() {
+		if s2, ok := ref.(*ssa.Store); ok && s2.Addr == ssa.Value(a) && loop.body[s2.Block()] {
+			return nil
+		}
+	}
+	ph, ok := ia.Index.(*ssa.Phi)
+	if !ok || ph.Block() != loop.header {
+		return nil
+	}
+	for i, e := range ph.Edges {
+		if loop.body[ph.Block().Preds[i]] {
+			bo, ok := e.(*ssa.BinOp)
+			if !ok || bo.Op != token.ADD || bo.X != ssa.Value(ph) {
+				return nil
+			}
+			if k, ok := bo.Y.(*ssa.Const); !ok || k.Value == nil || k.Value.ExactString() != "1" {
+				return nil
+			}
+			// the store and the increment happen in every iteration that goes round
+			if !st.Block().Dominates(ph.Block().Preds[i]) {
+				return nil
+			}
+			continue
+		}
+		if k, ok := e.(*ssa.Const); !ok || k.Value == nil || k.Value.ExactString() != "0" {
+			return nil
+		}
+	}
+	return a
 }
 
 func (c *Ctx) returnsGuardedByEquality(loop *loopInfo) bool {
@@ -749,7 +815,6 @@ func (c *Ctx) bookkeepingRecomputedRule(r *Report, prefix string, escope []*ssa.
 		}
 	}
 }
-
 
 // protectListFreshRule: the payload list a protected message ends up with is a NEW list. encryptMsg keeps
 // the old list (ikePayloads := ikeMsg.Payloads) and the caller may still hold the slice it built the
